@@ -6,7 +6,8 @@
      [211]                          snapshot into the register        (obs: dump of the snapshot)
      [212; observed dump]           SnapshotRestore of the register; the harness writes "777 1", the model answers
                                     777 1 iff the observed state is the snapshot's state (repaired restore),
-                                    777 7 otherwise (finding F7) and continues from the observed state
+                                    777 7 if it is what gob-decoding into the live struct gives (finding F7),
+                                    777 8 for anything else; it continues from the observed state
      [214]                          switch to a fresh replica         (obs: dump)
    observation of a command: result line ++ dump;  [-3] = the process died. *)
 From Coq Require Import List NArith ZArith Bool.
@@ -54,8 +55,10 @@ Definition mstep_wire (w : mwstate) (line : list Z) : mwstate * list Z :=
     | None => (w, bad_line)
     | Some seen =>
       let want := restore_fresh (mw_cur w) (mw_snap w) in
-      let ok := list_eqb (mdump (fst want)) obs in
-      (mkMW (seen, snd (mw_cur w)) (mw_snap w) false, [777%Z; if ok then 1%Z else 7%Z])
+      let code := if list_eqb (mdump (fst want)) obs then 1%Z
+                  else if list_eqb (mdump (fst (restore_merge (mw_cur w) (mw_snap w)))) obs then 7%Z
+                  else 8%Z in
+      (mkMW (seen, snd (mw_cur w)) (mw_snap w) false, [777%Z; code])
     end
   | Some [214] => (mkMW (m_init, mv_init) (mw_snap w) false, nz (mdump m_init))
   | Some (op :: idx :: args) =>
